@@ -304,3 +304,17 @@ Example C18_rows_nonempty :
   exists a b c, In a thread_rows /\ row_fn a = ISOAdd_row /\ In b thread_rows /\ row_fn b = UTSAdd_row /\
                 In c thread_rows /\ row_fn c = NPTAdd_row.
 Proof. exact rows_example. Qed.
+
+(* ---- inventory of mutable state (DESIGN.md 2.3).  The models above are functions of their arguments; they are
+   faithful only as long as the code keeps no state between calls beyond what they mention.  The package-level
+   variables and struct fields in the scope of C18 (and which of them are written outside construction, from which
+   entry points) are regenerated from the current source on every run (harness/stategen -> Generated/StateInv.v)
+   and contain no state beyond the expected, reviewed inventory of Sys/StateInvSpec.v, where every piece of state
+   that legitimately exists names the model component that accounts for it.  Breaks when a written package-level
+   variable, a struct field, or a write of a field outside its constructor is added in scope (coqc then prints the
+   differences); tolerates moved declarations, reordered fields, renamed locals, new helpers / constants / tables
+   nothing writes. *)
+From Sdfx Require Sys.StateInvSpec Sys.StateInvC18.
+Theorem C18_state_inventory : Sdfx.Sys.StateInvSpec.state_ok_C18 = true.
+Proof. exact Sdfx.Sys.StateInvC18.C18_state_inventory. Qed.
+Print Assumptions C18_state_inventory.
